@@ -20,6 +20,10 @@ def argBuilderDefault : SqAB := SqAB.retErr
 def columnNamesAst : SqCN :=
   SqCN.alloc (SqCN.forCols (SqCN.setName SqCN.done) SqCN.ret)
 
+/-- `QFrame.ColumnTypes` -/
+def columnTypesAst : SqCT :=
+  SqCT.alloc (SqCT.forCols (SqCT.setType SqCT.done) SqCT.ret)
+
 /-- `QFrame.ToSQL` -/
 def toSqlAst : SqT :=
   SqT.guardErr (SqT.allocBuilders (SqT.forCols (SqT.newBuilder SqT.done) (SqT.forRows (SqT.allocArgs (SqT.forBuilders (SqT.setArg SqT.done) (SqT.exec SqStmt.insertOfNames SqT.done))) SqT.retNil)))
